@@ -21,16 +21,67 @@ import vrun
 PROP = "C03"
 
 
+RAW_HEADER = "from twosigma.memento import memento_function\nimport vrec\n"
+
+# hand-written packages around the places where the rule set could be enumerated in a process-dependent order:
+# equal symbols under different parents, several aliases of one function, equal-named helpers in two modules
+RAW = [
+    dict(name="same-symbol-two-parents", ms=["m1", "m2"], files={
+        "aux.py": RAW_HEADER + "_RATE = 2\n\n\ndef apply(a):\n    return a + _RATE\n",
+        "mod.py": RAW_HEADER + "from . import aux\n_RATE = 20\n\n\ndef apply(a):\n    return a * _RATE\n\n\n"
+                  "@memento_function(cluster=\"vp\")\ndef m1(x):\n    vrec.REC.enter('m1', x)\n    return [apply(x), aux.apply(x)]\n\n\n"
+                  "@memento_function(cluster=\"vp\")\ndef m2(x):\n    vrec.REC.enter('m2', x)\n    return [m1(x), aux.apply(x), apply(x)]\n"}),
+    dict(name="two-aliases-of-one-helper", ms=["m1", "m2"], files={
+        "aux.py": RAW_HEADER,
+        "mod.py": RAW_HEADER + "def _h(t):\n    return t + 1\n\n\nname_a = _h\nname_b = _h\nzz = _h\n\n\n"
+                  "@memento_function(cluster=\"vp\")\ndef m1(x):\n    vrec.REC.enter('m1', x)\n    return [name_b(x), name_a(x)]\n\n\n"
+                  "@memento_function(cluster=\"vp\")\ndef m2(x):\n    vrec.REC.enter('m2', x)\n    return [zz(x), m1(x), name_a(x), name_b(x)]\n"}),
+    dict(name="two-aliases-of-one-memento-function", ms=["m1", "m2", "m3"], files={
+        "aux.py": RAW_HEADER + "@memento_function(cluster=\"vp\")\ndef m1(x):\n    vrec.REC.enter('m1', x)\n    return x + 1\n\n\nfirst = m1\nsecond = m1\n",
+        "mod.py": RAW_HEADER + "from . import aux\nfrom .aux import m1, first, second\n\n\ndef via(x):\n    return aux.second(x) + aux.first(x)\n\n\n"
+                  "@memento_function(cluster=\"vp\")\ndef m2(x):\n    vrec.REC.enter('m2', x)\n    return [second(x), first(x), m1(x)]\n\n\n"
+                  "@memento_function(cluster=\"vp\")\ndef m3(x):\n    vrec.REC.enter('m3', x)\n    return [via(x), first(x), m2(x)]\n"}),
+    dict(name="same-helper-name-three-levels", ms=["m1"], files={
+        "aux.py": RAW_HEADER + "K = 'aux'\n\n\ndef leaf(a):\n    return [a, K]\n\n\ndef mid(a):\n    return leaf(a) + [K]\n",
+        "mod.py": RAW_HEADER + "from . import aux\nK = 'mod'\n\n\ndef leaf(a):\n    return [K, a]\n\n\ndef mid(a):\n    return leaf(a) + [K, K]\n\n\n"
+                  "@memento_function(cluster=\"vp\")\ndef m1(x):\n    vrec.REC.enter('m1', x)\n    return [mid(x), aux.mid(x), leaf(x), aux.leaf(x), K, aux.K]\n"}),
+    dict(name="lambdas-and-variables-sharing-names", ms=["m1", "m2"], files={
+        "aux.py": RAW_HEADER + "T = (1, 2)\nf = lambda a: [a, T]\ng = lambda a: [T, a]\n",
+        "mod.py": RAW_HEADER + "from . import aux\nT = (2, 1)\nf = lambda a: [a, T, 0]\ng = lambda a: [T, a, 0]\n\n\n"
+                  "@memento_function(cluster=\"vp\")\ndef m1(x):\n    vrec.REC.enter('m1', x)\n    return [f(x), g(x), aux.f(x), aux.g(x)]\n\n\n"
+                  "@memento_function(cluster=\"vp\")\ndef m2(x):\n    vrec.REC.enter('m2', x)\n    return [aux.g(x), g(x), m1(x)]\n"}),
+]
+
+
+def write_raw(raw, sub, pkg):
+    d = os.path.join(sub, pkg)
+    os.makedirs(d, exist_ok=True)
+    open(os.path.join(d, "__init__.py"), "w").write("")
+    for fn, src in raw["files"].items():
+        open(os.path.join(d, fn), "w").write(src)
+    open(os.path.join(d, "other.py"), "w").write(
+        'from twosigma.memento import memento_function\n\n\n@memento_function(cluster="vp")\ndef unrelated(x):\n    return x\n')
+
+
 def check_program(prog, root, seeds, rng_orders):
     fails = []
-    ms = [n for n in prog["order"] if n[0] == "m"]
+    raw = prog.get("raw")
+    ms = raw["ms"] if raw else [n for n in prog["order"] if n[0] == "m"]
+    if raw:
+        class _W:
+            @staticmethod
+            def write_package(prog, sub, pkg, order=None):
+                write_raw(raw, sub, pkg)
+        vp = _W
+    else:
+        vp = vprogs
     versions = {}
     runs = []
     for i, (seed, order, qorder) in enumerate(rng_orders):
         sub = os.path.join(root, "r%d" % i)
         os.makedirs(sub)
         pkg = "vpk"                      # the same package name everywhere (names are part of the version)
-        vprogs.write_package(prog, sub, pkg, order)
+        vp.write_package(prog, sub, pkg, order)
         acts = [["import", ["other-first", "other-last", None][i % 3]]] + [["versions", [q]] for q in qorder]
         runs.append((sub, seed, acts, order, qorder))
 
@@ -57,13 +108,13 @@ def check_program(prog, root, seeds, rng_orders):
     # second process on the store of the first executes nothing
     sub = os.path.join(root, "store-run")
     os.makedirs(sub)
-    vprogs.write_package(prog, sub, "vpk")
+    vp.write_package(prog, sub, "vpk")
     store = os.path.join(root, "store")
     calls = [["call", n, 2] for n in ms]
     first = vrun.child(dict(root=sub, pkg="vpk", store=store, actions=[["import"]] + calls), hashseed=seeds[0])
     sub2 = os.path.join(root, "store-run2")
     os.makedirs(sub2)
-    vprogs.write_package(prog, sub2, "vpk", list(reversed(prog["order"])))
+    vp.write_package(prog, sub2, "vpk", list(reversed(prog["order"])))
     second = vrun.child(dict(root=sub2, pkg="vpk", store=store, actions=[["import"]] + calls), hashseed=seeds[-1])
     for n, a, b in zip(ms, first[1:], second[1:]):
         if not isinstance(b, dict) or "error" in b:
@@ -97,10 +148,10 @@ def main(chk, replay=None):
     nseeds = 4 if quick else 12
     reported = 0
     import c01
-    corpus = [c[0] for c in c01.corpus()]
+    corpus = [dict(raw=r, order=list(r["ms"]), defs={}) for r in RAW] + [c[0] for c in c01.corpus()]
     for pi in range(nprog + len(corpus)):
         prog = corpus[pi] if pi < len(corpus) else vprogs.gen_prog(rng, nm=rng.randint(2, 4), hidden_rate=0.0)
-        seeds = [0, 1, 2, 3, 7, 11, 13, 42, 99, 123, 1000, 31337][:nseeds]
+        seeds = [0, 1, 2, 3, 7, 11, 13, 42, 99, 123, 1000, 31337][:12 if prog.get("raw") else nseeds]
         ms = [n for n in prog["order"] if n[0] == "m"]
         runs = []
         for si, s_ in enumerate(seeds):
@@ -116,7 +167,9 @@ def main(chk, replay=None):
         root = tempfile.mkdtemp(prefix="c03_", dir=chk.tmpdir())
         fails, table = check_program(prog, root, seeds, runs)
         shutil.rmtree(root, ignore_errors=True)
-        chk.case([prog, runs], nontrivial=any(d.get("setc") for d in prog["defs"].values()) or sum(len(d.get("refs", [])) for d in prog["defs"].values()) >= 2,
+        if prog.get("raw"):
+            chk.count("hand-written package: " + prog["raw"]["name"])
+        chk.case([prog, runs], nontrivial=bool(prog.get("raw")) or any(d.get("setc") for d in prog["defs"].values()) or sum(len(d.get("refs", [])) for d in prog["defs"].values()) >= 2,
                  sample=dict(versions=table[0]["versions"] if table else None, runs=len(runs), defs=list(prog["defs"])))
         chk.count("processes", len(runs) + 2)
         if any(d.get("setc") for d in prog["defs"].values()):
@@ -127,7 +180,8 @@ def main(chk, replay=None):
             uses_set = any(d.get("setc") and len(d["setc"]) > 1 for d in prog["defs"].values())
             chk.violation({"what": "versions: %s for %s" % (f["clause"], f.get("fn")),
                            "class": {"clause": f["clause"]}, "program": prog, "seeds": seeds, "runs": runs,
-                           "observed": fails[:2], "source": vprogs.render_modules(prog, "vpk")})
+                           "observed": fails[:2],
+                           "source": prog["raw"]["files"] if prog.get("raw") else vprogs.render_modules(prog, "vpk")})
         if reported >= 3:
             break
 
